@@ -1,8 +1,9 @@
 (* Props/C14.v — property C14: chunk concatenation is total, deterministic and
    independent of chunk boundaries. Only statements, each closed by [exact]. *)
-From Eino Require Import Base.Util Model.Concat Model.ConcatMsg.
-From Eino Require Import Proofs.Concat Proofs.ConcatRechunk Proofs.ConcatMsg.
-From Coq Require Import Sorting.Sorted.
+From Eino Require Import Base.Util Model.Concat Model.ConcatMsg Model.ConcatOrder.
+From Eino Require Import Proofs.Concat Proofs.ConcatRechunk Proofs.ConcatMsg Proofs.ConcatMsgList.
+From Eino Require Import Proofs.ConcatOrder Proofs.ConcatOrderMsg Proofs.ConcatMsgSpec.
+From Coq Require Import Sorting.Sorted Sorting.Permutation.
 
 (* ------------------------------------------------------------------ generic values *)
 
@@ -117,6 +118,44 @@ Theorem msg_stream_rechunk :
 Proof. exact Proofs.ConcatMsg.msg_stream_rechunk. Qed.
 Print Assumptions msg_stream_rechunk.
 
+(* ------------------------------------------------------------------ message lists *)
+
+(* concatStreamReader[[]*Message] (position-wise concatenation of message lists, nil
+   entries skipped, lists of different length rejected): any non-empty prefix. *)
+Theorem msglist_rechunk :
+  forall xs ys : list (list (option msg)),
+    xs <> [] ->
+    match msglist_stream xs with
+    | Ok c =>
+        match msglist_stream (c :: ys), msglist_stream (xs ++ ys) with
+        | Ok a, Ok b => a = b
+        | Err _, Err _ => True
+        | _, _ => False
+        end
+    | Err _ => exists e, msglist_stream (xs ++ ys) = Err e
+    | Panic => False
+    end.
+Proof. exact Proofs.ConcatMsgList.msglist_stream_rechunk. Qed.
+Print Assumptions msglist_rechunk.
+
+(* ... and for concatMessageArray itself, the function the registry calls (it has no
+   single-chunk shortcut; on one list it returns that list). *)
+Theorem msg_arrays_rechunk :
+  forall xs ys : list (list (option msg)),
+    xs <> [] ->
+    match concat_msg_arrays xs with
+    | Ok c =>
+        match concat_msg_arrays (c :: ys), concat_msg_arrays (xs ++ ys) with
+        | Ok a, Ok b => a = b
+        | Ok _, _ => False
+        | _, Ok _ => False
+        | _, _ => True
+        end
+    | _ => is_ok (concat_msg_arrays (xs ++ ys)) = false
+    end.
+Proof. exact Proofs.ConcatMsgList.msg_arrays_rechunk. Qed.
+Print Assumptions msg_arrays_rechunk.
+
 Definition ex_tc (i : option Z) (id args : string) (e : N) : toolcall := mkTC i id "" "" args e.
 Definition ex_m1 : msg :=
   mkMsg "assistant" "" "" "Hel" [] [ex_tc (Some 1%Z) "c1" "{""a" 7; ex_tc None "n" "x" 0; ex_tc (Some 0%Z) "" "q" 0]
@@ -143,6 +182,21 @@ Example msg_rechunk_nonvacuous_err :
     concat_msgs [Some ex_m1; Some ex_m2; Some (mkMsg "user" "" "" "" [] [] None [])] = Err E_CONFLICT.
 Proof. eexists. split; [vm_compute; reflexivity|]. split; vm_compute; reflexivity. Qed.
 
+Example msglist_rechunk_nonvacuous :
+  let xs := [[Some ex_m1; None; Some ex_m3]; [Some ex_m2; None; None]] in
+  let ys := [[Some ex_m3; Some ex_m1; None]] in
+  exists c, msglist_stream xs = Ok c /\ nth_error c 1 = Some None /\ nth_error c 2 = Some (Some ex_m3) /\
+    exists r, msglist_stream (c :: ys) = Ok r /\ msglist_stream (xs ++ ys) = Ok r /\
+      nth_error r 1 = Some (Some ex_m1) /\ nth_error r 2 = Some (Some ex_m3).
+Proof. eexists. split; [vm_compute; reflexivity|]. split; [reflexivity|]. split; [reflexivity|].
+  eexists. split; [vm_compute; reflexivity|]. split; [vm_compute; reflexivity|]. split; reflexivity. Qed.
+
+Example msglist_rechunk_nonvacuous_err :
+  exists c, msglist_stream [[Some ex_m1]; [Some ex_m2]] = Ok c /\
+    msglist_stream [c; [Some ex_m3; None]] = Err E_LEN /\
+    msglist_stream [[Some ex_m1]; [Some ex_m2]; [Some ex_m3; None]] = Err E_LEN.
+Proof. eexists. split; [vm_compute; reflexivity|]. split; vm_compute; reflexivity. Qed.
+
 (* Order: the content is the arrival-order concatenation; tool calls without index come
    first in arrival order; then exactly one call per distinct index, ascending, whose
    arguments are the arrival-order concatenation of the fragments carrying that index. *)
@@ -160,3 +214,180 @@ Theorem order_kept :
         Forall2 (fun i m => tc_args m = concat_strings (map tc_args (filter (has_idx i) cs))) il merged.
 Proof. exact order_kept_proof. Qed.
 Print Assumptions order_kept.
+
+(* ------------------------------------------------------------------ what every field becomes *)
+
+(* ConcatMessages, field by field: role / name / tool-call id are the one non-empty value
+   all chunks agree on ([pick_characterised] below); content is joined in arrival order;
+   multi-content is the last non-empty one; the response meta is absent iff no chunk has
+   one, else it carries the last non-empty finish reason, the component-wise maximum of 0
+   and the chunks' token usages (absent iff no chunk has a usage), all log-prob lists
+   appended in arrival order (absent iff no chunk has one); tool calls go through
+   concatToolCalls (order_kept); the Extra maps are merged key by key: every key of any
+   chunk appears once and holds the concatenation of the values found under it, in arrival
+   order. *)
+Theorem fields_merged :
+  forall (l : list (option msg)) (r : msg),
+    concat_msgs l = Ok r ->
+    exists ms, all_some l = Some ms /\
+      pick (map m_role ms) = Ok (m_role r) /\
+      pick (map m_name ms) = Ok (m_name r) /\
+      pick (map m_tcid ms) = Ok (m_tcid r) /\
+      m_content r = concat_strings (map m_content ms) /\
+      m_multi r = fold_left (fun acc x => match x with [] => acc | _ => x end) (map m_multi ms) [] /\
+      m_meta r = meta_closed (map m_meta ms) /\
+      concat_toolcalls (flat_map m_tcs ms) = Ok (m_tcs r) /\
+      let ex := filter nonempty_map (map m_extra ms) in
+      map fst (m_extra r) = keys_of ex /\
+      forall k, In k (keys_of ex) ->
+        exists v, concat_key concat_maps_top (vals_at k ex) = Ok v /\ alist_get k (m_extra r) = Some v.
+Proof. exact fields_spec. Qed.
+Print Assumptions fields_merged.
+
+(* "first non-empty value wins, a different non-empty value is an error", exactly *)
+Theorem pick_characterised :
+  forall (l : list string) (r : string),
+    pick l = Ok r <-> (forall s, In s l -> s = EmptyString \/ s = r) /\ (r = EmptyString \/ In r l).
+Proof. exact pick_spec. Qed.
+Print Assumptions pick_characterised.
+
+(* the merged usage, component by component *)
+Theorem usage_is_max :
+  forall us : list usage,
+    umax_all us = mkUsage (fold_left Z.max (map u_prompt us) 0%Z)
+                          (fold_left Z.max (map u_compl us) 0%Z)
+                          (fold_left Z.max (map u_total us) 0%Z) /\
+    (forall l acc z, (z = acc \/ In z l) -> (z <= fold_left Z.max l acc)%Z) /\
+    (forall l acc, fold_left Z.max l acc = acc \/ In (fold_left Z.max l acc) l).
+Proof. intros us. exact (conj (umax_all_components us) (conj fold_max_ge fold_max_in)). Qed.
+Print Assumptions usage_is_max.
+
+Example fields_merged_nonvacuous :
+  meta_closed [m_meta ex_m1; m_meta ex_m2; m_meta ex_m3] = Some (mkMeta "stop" (Some (mkUsage 4 3 9)) (Some ["t1"%string])) /\
+  meta_closed [None; None] = None /\
+  meta_closed [Some (mkMeta "" None None); None] = Some (mkMeta "" None None) /\
+  meta_closed [Some (mkMeta "a" (Some (mkUsage (-5) (-1) (-2))) (Some [])); Some (mkMeta "" None (Some ["x"%string; "y"%string]))]
+    = Some (mkMeta "a" (Some (mkUsage 0 0 0)) (Some ["x"%string; "y"%string])).
+Proof. repeat split; vm_compute; reflexivity. Qed.
+
+(* ------------------------------------------------------------------ determinism *)
+
+(* Go iterates over maps in an arbitrary order that may change from call to call.
+   [concat_stream_o s] is concatStreamReader/ConcatItems with the key loop of every
+   (nested) concatMaps call visiting the keys in the order the schedule [s] dictates
+   (Model/ConcatOrder.v); [ceq] relates two renderings of the same Go value (association
+   lists that agree as lookup functions, at every depth).  Whatever the schedule and
+   whatever the rendering of the chunks, the result is the Go value computed by
+   [concat_stream] (the function the correspondence check evaluates), or both fail (the
+   error reported may belong to another key), or both panic (never, by concat_total). *)
+Theorem concat_deterministic :
+  forall (s : sched) (vs vs' : list cval),
+    sched_ok s -> Forall2 ceq vs vs' ->
+    match concat_stream_o s vs, concat_stream vs' with
+    | Ok a, Ok b => ceq a b
+    | Err _, Err _ => True
+    | Panic, Panic => True
+    | _, _ => False
+    end.
+Proof. exact concat_stream_order. Qed.
+Print Assumptions concat_deterministic.
+
+(* [ceq] is an equivalence relation (so "the same Go value" is meaningful) *)
+Theorem ceq_equivalence :
+  (forall v, ceq v v) /\ (forall a b, ceq a b -> ceq b a) /\ (forall a b c, ceq a b -> ceq b c -> ceq a c).
+Proof. exact (conj ceq_refl (conj ceq_sym (fun a b c H1 H2 => ceq_trans a b H1 c H2))). Qed.
+Print Assumptions ceq_equivalence.
+
+(* the same for concatMaps on any number of maps (the Extra maps of chat messages) *)
+Theorem concat_maps_deterministic :
+  forall (s : sched) (xs xs' : list (list (string * cval))),
+    sched_ok s -> Forall2 meq xs xs' ->
+    match concat_maps_top_o s xs, concat_maps_top xs' with
+    | Ok a, Ok b => meq a b
+    | Err _, Err _ => True
+    | _, _ => False
+    end.
+Proof.
+  intros s xs xs' Hs H. pose proof (concat_maps_order s xs xs' Hs H) as R.
+  pose proof (concat_maps_top_no_panic xs') as P.
+  destruct (concat_maps_top_o s xs), (concat_maps_top xs'); cbn in R; try contradiction; auto.
+Qed.
+Print Assumptions concat_maps_deterministic.
+
+(* [rev_sched n] (Model/ConcatOrder.v) reverses the key order at every nesting level down to depth n *)
+Lemma rev_sched_ok n : sched_ok (rev_sched n).
+Proof.
+  induction n as [|n IH]; cbn; constructor; [|intros _; exact IH].
+  intros l. apply Permutation_sym, Permutation_rev.
+Qed.
+
+Example concat_deterministic_nonvacuous :
+  let vs := [CMap 0 [("a"%string, CStr "x"); ("n"%string, CMap 0 [("p"%string, CNum 0 1); ("q"%string, CNil)])];
+             CMap 0 [("n"%string, CMap 0 [("q"%string, COther 0 3)]); ("b"%string, CNum 0 2); ("a"%string, CStr "y")]] in
+  let vs' := [CMap 0 [("n"%string, CMap 0 [("q"%string, CNil); ("p"%string, CNum 0 1)]); ("a"%string, CStr "x")];
+              CMap 0 [("a"%string, CStr "y"); ("b"%string, CNum 0 2); ("n"%string, CMap 0 [("q"%string, COther 0 3)])]] in
+  sched_ok (rev_sched 2) /\ Forall2 ceq vs vs' /\
+  concat_stream_o (rev_sched 2) vs =
+    Ok (CMap 0 [("b"%string, CNum 0 2); ("n"%string, CMap 0 [("q"%string, COther 0 3); ("p"%string, CNum 0 1)]); ("a"%string, CStr "xy")]) /\
+  concat_stream vs' =
+    Ok (CMap 0 [("n"%string, CMap 0 [("q"%string, COther 0 3); ("p"%string, CNum 0 1)]); ("a"%string, CStr "xy"); ("b"%string, CNum 0 2)]).
+Proof.
+  split; [apply rev_sched_ok|]. split.
+  - constructor; [|constructor; [|constructor]]; apply (ceqb_sound 3); vm_compute; reflexivity.
+  - split; vm_compute; reflexivity.
+Qed.
+
+(* the error that is reported does depend on the order (only its presence does not) *)
+Example concat_deterministic_error_differs :
+  let vs := [CMap 0 [("a"%string, CStr "x"); ("b"%string, COther 0 1)];
+             CMap 0 [("a"%string, CNum 0 1); ("b"%string, COther 0 2)]] in
+  concat_stream vs = Err E_TYPE /\ concat_stream_o (rev_sched 1) vs = Err E_MULTI.
+Proof. split; vm_compute; reflexivity. Qed.
+
+(* Tool calls: concatToolCalls collects the fragments in a Go map keyed by index, visits
+   it in an arbitrary order [p] and then sorts stably (nil index first, then ascending):
+   the result is the one of [concat_toolcalls], whatever the order. *)
+Theorem toolcalls_deterministic :
+  forall (p : list Z) (cs : list toolcall),
+    Permutation p (idxs_of cs) ->
+    match concat_toolcalls_o p cs, concat_toolcalls cs with
+    | Ok a, Ok b => a = b
+    | Err _, Err _ => True
+    | _, _ => False
+    end.
+Proof.
+  intros p cs HP. pose proof (toolcalls_order p cs HP) as R.
+  pose proof (concat_toolcalls_no_panic cs) as P.
+  destruct (concat_toolcalls_o p cs), (concat_toolcalls cs); cbn in R; try contradiction; auto.
+Qed.
+Print Assumptions toolcalls_deterministic.
+
+(* ConcatMessages with both sources of arbitrary order, on any rendering of the chunks *)
+Theorem msg_concat_deterministic :
+  forall (po : list Z -> list Z) (s : sched) (l l' : list (option msg)),
+    (forall x, Permutation (po x) x) -> sched_ok s -> Forall2 omsg_same l l' ->
+    match concat_msgs_o po s l, concat_msgs l' with
+    | Ok a, Ok b => msg_same a b
+    | Err _, Err _ => True
+    | _, _ => False
+    end.
+Proof.
+  intros po s l l' Hpo Hs H. pose proof (concat_msgs_order po s l l' Hpo Hs H) as R.
+  pose proof (concat_msgs_no_panic l') as P.
+  destruct (concat_msgs_o po s l), (concat_msgs l'); cbn in R; try contradiction; auto.
+Qed.
+Print Assumptions msg_concat_deterministic.
+
+Example msg_concat_deterministic_nonvacuous :
+  (forall x : list Z, Permutation (rev x) x) /\
+  concat_toolcalls_o (rev (idxs_of (m_tcs ex_m1 ++ m_tcs ex_m2 ++ m_tcs ex_m3))) (m_tcs ex_m1 ++ m_tcs ex_m2 ++ m_tcs ex_m3)
+    = concat_toolcalls (m_tcs ex_m1 ++ m_tcs ex_m2 ++ m_tcs ex_m3) /\
+  rev (idxs_of (m_tcs ex_m1 ++ m_tcs ex_m2 ++ m_tcs ex_m3)) = [1%Z; 0%Z] /\
+  exists r, concat_msgs_o (@rev Z) (rev_sched 2) [Some ex_m1; Some ex_m2; Some ex_m3] = Ok r /\
+    m_tcs r = [ex_tc None "n" "x" 0; ex_tc (Some 0%Z) "c0" "qr" 0; ex_tc (Some 1%Z) "c1" "{""a"":1}" 7] /\
+    m_extra r = [("z"%string, CNum 0 4); ("k"%string, CStr "ab")].
+Proof.
+  split; [intros x; apply Permutation_sym, Permutation_rev|].
+  split; [vm_compute; reflexivity|]. split; [vm_compute; reflexivity|].
+  eexists. split; [vm_compute; reflexivity|]. split; reflexivity.
+Qed.
